@@ -116,7 +116,7 @@ def explore_c11(rng, tier, res, deep=False):
         "'^' and '$' are excluded from patterns (disputed reading). Non-trivial = distinct (pattern, subject) "
         "where match or search is true."
     )
-    n = sizes(tier, deep, 1500, 40000)
+    n = sizes(tier, deep, 1500, 30000)
     env = jp.JSONPathEnvironment()
     cm = env.compile("$[?match(@.s, @.p)]")
     cs = env.compile("$[?search(@.s, @.p)]")
@@ -223,6 +223,25 @@ def explore_c11(rng, tier, res, deep=False):
             except Exception as exc:  # noqa: BLE001
                 res.violations.append({"property": "C11", "query": "match/search", "document": doc, "observed": "PY:" + type(exc).__name__,
                                        "expected": "false", "what": "non-string argument raised"})
+    # SUBJECT strings as `json.loads` really delivers them: with unpaired surrogate code points (from "\\udc00" in the JSON
+    # text), very long, or made of astral characters only — judged on the real side alone (such strings are outside the
+    # model's Char): no exception, and for patterns that are plain ASCII text the answer is substring / equality
+    odd_subjects = ["x\udc00", "\ud800x", "a\udc00b\ud800", "\udfff", "x" * 70000, "\U0001f600" * 3000, "ab" + "\ud83d", "\x00x\x00", "x\ufffe", "\ufeffx"]
+    for subj in odd_subjects:
+        for pat in ("x", "ab", "a", "zz", "x+", "[a-x]*", "."):
+            doc = [{"s": subj, "p": pat}]
+            res.evaluations += 1
+            try:
+                mr, sr = bool(cm.find(doc)), bool(cs.find(doc))
+            except Exception as exc:  # noqa: BLE001
+                res.violations.append({"property": "C11", "query": "$[?match(@.s, @.p)] / $[?search(@.s, @.p)]", "document": [{"s": subj[:40].encode("unicode_escape").decode() + ("..." if len(subj) > 40 else ""), "p": pat}],
+                                       "observed": "PY:" + type(exc).__name__ + ": " + str(exc)[:120], "expected": "true or false",
+                                       "what": "match()/search() raised on a subject string (as json.loads delivers it: unpaired surrogate, very long, astral)"})
+                break
+            if pat.isalnum() and (sr != (pat in subj) or mr != (pat == subj)):
+                res.violations.append({"property": "C11", "query": "match/search", "document": [{"s": subj[:40].encode("unicode_escape").decode(), "p": pat}],
+                                       "observed": {"match": mr, "search": sr}, "expected": {"match": pat == subj, "search": pat in subj},
+                                       "what": "a plain-text pattern against an unusual subject string"})
     # map_re against its model
     pats = [gen_re(rng) for _ in range(400)] + ["a.b", "[.]", "\\.", "[a.]\\..", "\\\\.", "[\\]].", "[^.]", ".[.].", "\\[.\\]"]
     out = model.run_batch_parallel(["mapre\t" + wire.enc_str(p) for p in pats])
